@@ -3,7 +3,8 @@
   `rdhSanityBad`) IS what `tools/rs2lean.py` translates from the Rust sources on every run (`Spec/RdhSrcGen.lean`):
   `Rdh0::from_buf` + `RdhCru::from_rdh0_and_buf` (with `Rdh1/2/3::from_buf`), the accessors of `RdhCru`,
   and `RdhCruSanityValidator::sanity_check` with its four sub-validators, the FEE-ID validator, the constructors
-  `new` / `with_specialization(ITS)` / `specialize(ITS)` and every constant they use.
+  `new` / `with_specialization(ITS)` / `specialize(ITS)` and every constant they use; `RdhCruRunningChecker::check` with its
+  three sub-checks (`rdh_running.rs`) = `runningStep` through the abstraction `runAbs`.
 -/
 import FastPasta.Spec.RdhSrcGen
 import FastPasta.Model.Cdp
@@ -235,6 +236,144 @@ theorem accessors_eq (c : RdhCru) (hcd : c.f_cruid_dw.f_0 < 65536) :
 theorem fee_fields_eq (fee : Nat) (h : fee < 65536) : layer_from_feeid fee = feeLayer fee ∧ stave_number_from_feeid fee = feeStave fee := by
   simp only [layer_from_feeid, stave_number_from_feeid, feeLayer, feeStave, Rs.and_mask, shr]
   omega
+
+/-! ### `RdhCruRunningChecker` (rdh_running.rs) = `runningStep` -/
+
+/-- abstraction: the source's running-checker state as the model's `RunSt` -/
+def runAbs (v : RdhCruRunningChecker) : RunSt :=
+  { expectPage := v.f_expect_pages_counter,
+    seen := if v.f_first_rdh_cru.isNone then 0 else if v.f_second_rdh_cru.isNone then 1 else 2,
+    increment := v.f_expect_pages_counter_increment,
+    last := v.f_last_rdh_cru.map toModel }
+
+/-- states the source can be in: the second header is stored only after the first -/
+def RunWf (v : RdhCruRunningChecker) : Prop := v.f_first_rdh_cru.isNone = true → v.f_second_rdh_cru.isNone = true
+
+theorem run_new : runAbs RdhCruRunningChecker.new = {} ∧ RunWf RdhCruRunningChecker.new := by
+  constructor
+  · rfl
+  · intro _; rfl
+
+theorem stop_page_eq (v : RdhCruRunningChecker) (r : Rdh2) :
+    let res := RdhCruRunningChecker.check_stop_bit_and_page_counter v r
+    res.1.isErr = (if r.f_stop_bit == 0 then r.f_pages_counter != v.f_expect_pages_counter
+                   else if r.f_stop_bit == 1 then r.f_pages_counter != v.f_expect_pages_counter else true) ∧
+    res.1.errStr.nonEmpty = res.1.isErr ∧
+    res.2 = { v with f_expect_pages_counter :=
+                if r.f_stop_bit == 0 then (v.f_expect_pages_counter + v.f_expect_pages_counter_increment) % 65536
+                else if r.f_stop_bit == 1 then 0 else v.f_expect_pages_counter } := by
+  simp only [RdhCruRunningChecker.check_stop_bit_and_page_counter]
+  by_cases h0 : (r.f_stop_bit == 0) = true
+  · by_cases hp : (r.f_pages_counter != v.f_expect_pages_counter) = true <;> simp [h0, hp, Rs.Str.app, Rs.Str.lit, Rs.Str.empty, Rs.Res.isErr, Rs.Res.errStr]
+  · by_cases h1 : (r.f_stop_bit == 1) = true
+    · by_cases hp : (r.f_pages_counter != v.f_expect_pages_counter) = true <;> simp [h0, h1, hp, Rs.Str.app, Rs.Str.lit, Rs.Str.empty, Rs.Res.isErr, Rs.Res.errStr]
+    · simp [h0, h1, Rs.Str.app, Rs.Str.lit, Rs.Str.empty, Rs.Res.isErr, Rs.Res.errStr]
+
+theorem orbit_change_eq (v : RdhCruRunningChecker) (r : Rdh1) :
+    let res := RdhCruRunningChecker.check_orbit_counter_changes v r
+    res.isErr = (match v.f_last_rdh_cru with | some l => l.f_rdh2.f_stop_bit == 1 && l.f_rdh1.f_orbit == r.f_orbit | none => false) ∧
+    res.errStr.nonEmpty = res.isErr := by
+  simp only [RdhCruRunningChecker.check_orbit_counter_changes, RdhCru.stop_bit, RdhCru.rdh1]
+  cases v.f_last_rdh_cru with
+  | none => simp [Rs.Res.isErr, Rs.Res.errStr]
+  | some l =>
+    by_cases h : (l.f_rdh2.f_stop_bit == 1 && l.f_rdh1.f_orbit == r.f_orbit) = true <;>
+      simp [h, Rs.Res.isErr, Rs.Res.errStr, Rs.Str.lit]
+
+theorem same_hbf_eq (v : RdhCruRunningChecker) (c : RdhCru) :
+    let res := RdhCruRunningChecker.check_orbit_trigger_det_field_feeid_same_when_page_not_0 v c
+    res.isErr = (c.f_rdh2.f_pages_counter != 0 && (match v.f_last_rdh_cru with
+      | some l => c.f_rdh1.f_orbit != l.f_rdh1.f_orbit || c.f_rdh2.f_trigger_type != l.f_rdh2.f_trigger_type ||
+                  c.f_rdh0.f_fee_id.f_0 != l.f_rdh0.f_fee_id.f_0
+      | none => false)) ∧
+    res.errStr.nonEmpty = res.isErr := by
+  simp only [RdhCruRunningChecker.check_orbit_trigger_det_field_feeid_same_when_page_not_0, RdhCru.pages_counter, RdhCru.rdh1,
+    RdhCru.rdh2, RdhCru.fee_id]
+  by_cases hp : (c.f_rdh2.f_pages_counter != 0) = true
+  · cases hl : v.f_last_rdh_cru with
+    | none => simp [hp, hl, Rs.Res.isErr, Rs.Res.errStr, Rs.Str.empty]
+    | some l =>
+      by_cases h1 : (c.f_rdh1.f_orbit != l.f_rdh1.f_orbit) = true <;>
+      by_cases h2 : (c.f_rdh2.f_trigger_type != l.f_rdh2.f_trigger_type) = true <;>
+      by_cases h3 : (c.f_rdh0.f_fee_id.f_0 != l.f_rdh0.f_fee_id.f_0) = true <;>
+      simp [hp, hl, h1, h2, h3, Rs.unwrapD, Rs.Res.isErr, Rs.Res.errStr, Rs.Str.empty, Rs.Str.app, Rs.Str.lit]
+  · simp [hp, Rs.Res.isErr, Rs.Res.errStr, Rs.Str.empty]
+
+/-- the part of `check` after the first/second-header bookkeeping, for an arbitrary intermediate result -/
+theorem check_tail (c : RdhCru) (p0 : Rs.Res Unit × RdhCruRunningChecker) (r1 r2 : Rs.Res Unit)
+    (out : Rs.Res Unit × RdhCruRunningChecker)
+    (e0 : p0.1.errStr.nonEmpty = p0.1.isErr) (e1 : r1.errStr.nonEmpty = r1.isErr) (e2 : r2.errStr.nonEmpty = r2.isErr)
+    (hout : out =
+      (let err0 := if p0.1.isErr then Rs.Str.empty.app p0.1.errStr else Rs.Str.empty
+       let err1 := if r1.isErr then err0.app r1.errStr else err0
+       let err2 := if r2.isErr then err1.app r2.errStr else err1
+       if (!(!err2.nonEmpty)) then (Rs.Res.err ((Rs.Str.lit true [11]).app err2), { p0.2 with f_last_rdh_cru := some c })
+       else (Rs.Res.ok (), { p0.2 with f_last_rdh_cru := some c }))) :
+    out.1.isErr = (p0.1.isErr || r1.isErr || r2.isErr) ∧ (out.1.isErr = true → ∃ cs, out.1.errStr.codes = 11 :: cs) ∧
+    out.2 = { p0.2 with f_last_rdh_cru := some c } := by
+  subst hout
+  obtain ⟨r0, v0⟩ := p0
+  rcases r0 with _ | s0 <;> rcases r1 with _ | s1 <;> rcases r2 with _ | s2 <;>
+    simp_all [Rs.Str.app, Rs.Str.lit, Rs.Str.empty, Rs.Res.isErr, Rs.Res.errStr]
+
+theorem running_check_eq (v : RdhCruRunningChecker) (c : RdhCru) (hw : RunWf v) :
+    runAbs (RdhCruRunningChecker.check v c).2 = (runningStep (runAbs v) (toModel c)).1 ∧
+    RunWf (RdhCruRunningChecker.check v c).2 ∧
+    (RdhCruRunningChecker.check v c).1.isErr = (runningStep (runAbs v) (toModel c)).2 ∧
+    ((RdhCruRunningChecker.check v c).1.isErr = true → ∃ cs, (RdhCruRunningChecker.check v c).1.errStr.codes = 11 :: cs) := by
+  -- the state after the first/second-header bookkeeping
+  obtain ⟨v1, hv1, hseen, hinc, hexp, hlast, hwf1⟩ : ∃ v1 : RdhCruRunningChecker,
+      (RdhCruRunningChecker.check v c) =
+        (let p0 := RdhCruRunningChecker.check_stop_bit_and_page_counter v1 c.f_rdh2
+         let r1 := RdhCruRunningChecker.check_orbit_counter_changes p0.2 c.f_rdh1
+         let r2 := RdhCruRunningChecker.check_orbit_trigger_det_field_feeid_same_when_page_not_0 p0.2 c
+         let err0 := if p0.1.isErr then Rs.Str.empty.app p0.1.errStr else Rs.Str.empty
+         let err1 := if r1.isErr then err0.app r1.errStr else err0
+         let err2 := if r2.isErr then err1.app r2.errStr else err1
+         if (!(!err2.nonEmpty)) then (Rs.Res.err ((Rs.Str.lit true [11]).app err2), { p0.2 with f_last_rdh_cru := some c })
+         else (Rs.Res.ok (), { p0.2 with f_last_rdh_cru := some c })) ∧
+      (if v1.f_first_rdh_cru.isNone then 0 else if v1.f_second_rdh_cru.isNone then 1 else 2) =
+        (if (runAbs v).seen < 2 then (runAbs v).seen + 1 else 2) ∧
+      v1.f_expect_pages_counter_increment = (if (runAbs v).seen == 1 then c.f_rdh2.f_pages_counter else v.f_expect_pages_counter_increment) ∧
+      v1.f_expect_pages_counter = v.f_expect_pages_counter ∧ v1.f_last_rdh_cru = v.f_last_rdh_cru ∧ RunWf v1 := by
+    rcases hf : v.f_first_rdh_cru with _ | f
+    · have hs : v.f_second_rdh_cru.isNone = true := hw (by simp [hf])
+      refine ⟨{ v with f_first_rdh_cru := some c }, ?_, ?_, ?_, rfl, rfl, ?_⟩
+      · simp only [RdhCruRunningChecker.check, hf, Option.isNone_none, if_true, RdhCru.rdh2, RdhCru.rdh1]
+      · simp [runAbs, hf, hs]
+      · simp [runAbs, hf]
+      · intro h; simp at h
+    · rcases hs : v.f_second_rdh_cru with _ | s2
+      · refine ⟨{ v with f_second_rdh_cru := some c, f_expect_pages_counter_increment := c.f_rdh2.f_pages_counter }, ?_, ?_, ?_, rfl, rfl, ?_⟩
+        · simp only [RdhCruRunningChecker.check, hf, hs, Option.isNone_none, Option.isNone_some, if_true, if_false, Bool.false_eq_true,
+            RdhCru.rdh2, RdhCru.rdh1, Rs.unwrapD, Option.getD_some]
+        · simp [runAbs, hf, hs]
+        · simp [runAbs, hf, hs]
+        · intro h; simp [hf] at h
+      · refine ⟨v, ?_, ?_, ?_, rfl, rfl, hw⟩
+        · simp only [RdhCruRunningChecker.check, hf, hs, Option.isNone_none, Option.isNone_some, if_true, if_false, Bool.false_eq_true,
+            RdhCru.rdh2, RdhCru.rdh1]
+        · simp [runAbs, hf, hs]
+        · simp [runAbs, hf, hs]
+  have h0 := stop_page_eq v1 c.f_rdh2
+  simp only at h0 hv1
+  generalize hp0 : RdhCruRunningChecker.check_stop_bit_and_page_counter v1 c.f_rdh2 = p0 at h0 hv1
+  have h1 := orbit_change_eq p0.2 c.f_rdh1
+  have h2 := same_hbf_eq p0.2 c
+  simp only at h1 h2
+  generalize hr1 : RdhCruRunningChecker.check_orbit_counter_changes p0.2 c.f_rdh1 = r1 at h1 hv1
+  generalize hr2 : RdhCruRunningChecker.check_orbit_trigger_det_field_feeid_same_when_page_not_0 p0.2 c = r2 at h2 hv1
+  obtain ⟨t1, t2, t3⟩ := check_tail c p0 r1 r2 _ h0.2.1 h1.2 h2.2 hv1
+  have hl2 : p0.2.f_last_rdh_cru = v.f_last_rdh_cru := by rw [h0.2.2]; exact hlast
+  refine ⟨?_, ?_, ?_, t2⟩
+  · rw [t3]
+    simp only [runAbs, runningStep, h0.2.2, hseen, hinc, hexp, hlast, toModel, Option.map_some]
+    by_cases hs0 : (c.f_rdh2.f_stop_bit == 0) = true <;> by_cases hs1 : (c.f_rdh2.f_stop_bit == 1) = true <;> simp [hs0, hs1]
+  · rw [t3]; intro h; simp only [h0.2.2] at h ⊢; exact hwf1 h
+  · rw [t1, h0.1, h1.1, h2.1, hl2]
+    simp only [runAbs, runningStep, toModel, hexp]
+    by_cases hs0 : (c.f_rdh2.f_stop_bit == 0) = true <;> by_cases hs1 : (c.f_rdh2.f_stop_bit == 1) = true <;>
+      cases v.f_last_rdh_cru <;> simp [hs0, hs1, toModel]
 
 end SrcTie
 end FastPasta
